@@ -233,9 +233,15 @@ def expect_guards(ctx, fn, table, where=None):
                 return ' '.join(U(x).split())
         act = [NT(a) for a in flatten_block(ast.parse(action).body)]      # same else-elimination as the analysed tree
         cands = []
+        acts = [act]
+        # `if g: T = E` ... `return T` as the function's last statement is the same as `if g: return E`
+        pa = flatten_block(ast.parse(action).body)
+        last = fn.body[-1] if fn.body else None
+        if len(pa) == 1 and isinstance(pa[0], ast.Assign) and isinstance(pa[0].targets[0], ast.Name) and isinstance(last, ast.Return) and U(last.value) == pa[0].targets[0].id:
+            acts.append([NT(ast.Return(value=pa[0].value))])
         for s in ifs:
             for test, body in if_chain(s):
-                if test is not None and body and [NT(b) for b in body[:len(act)]] == act:
+                if test is not None and body and any([NT(b) for b in body[:len(a_)]] == a_ for a_ in acts):
                     cands.append((s, test))
         if not cands:
             ctx.fail(fn, fn.node, '%s: no branch doing `%s` (%s)' % (fn.qual, action, meaning), stmt='%s lacks: if %s: %s' % (fn.qual, formula, action))
